@@ -17,12 +17,20 @@ VARF = "tf_pwa/variable.py"
 
 
 def check_temp_params_cover(repo, chk):
-    chk.rule("R-cover", "AbsPDF.temp_params entered for real on a manager with a trainable variable a and a fixed variable b (the manager's own get / get_all_val / set / set_all interpreted, variables as cells): after `with amp.temp_params({a: .., b: ..})` - left normally or by an exception - both cells hold their old values (the snapshot covers every variable the override may name, not only the trainable ones)")
+    chk.rule("R-cover", "AbsPDF.temp_params entered for real on a manager with a trainable variable a and a fixed variable b (the manager's own get / get_all_val / set / set_all interpreted, variables as cells): after `with amp.temp_params({a: .., b: ..})` - left normally or by an exception, entered plainly or inside a mask_params block that freezes a at its current value - both cells hold their old values (the snapshot covers every variable the override may name, not only the trainable ones, and the write-back does not consult the masked view)")
     cls = repo.cls(AMP + "::AbsPDF")
     vmc = repo.cls(VARF + "::VarsManager")
     if "temp_params" not in cls.methods:
         raise AnalysisError("anchor vanished: AbsPDF.temp_params")
-    for leave in ("normally", "by an exception"):
+    def generic(cond, tr_):
+        # A0, A1, B0, B1 are generic, pairwise different values: a comparison between two of them is decided
+        if isinstance(cond, sp.Ne) and cond.lhs.is_Symbol and cond.rhs.is_Symbol:
+            return cond.lhs != cond.rhs
+        if isinstance(cond, sp.Eq) and cond.lhs.is_Symbol and cond.rhs.is_Symbol:
+            return cond.lhs == cond.rhs
+        return None
+
+    for leave, masked in (("normally", False), ("by an exception", False), ("normally", True)):
         cells = {}
 
         def cell(name, v0):
@@ -32,20 +40,22 @@ def check_temp_params_cover(repo, chk):
             return c
 
         A0, B0, A1, B1 = sp.symbols("A0 B0 A1 B1", real=True)
-        vm = SelfObj(vmc, {"variables": {"a": cell("a", A0), "b": cell("b", B0)}, "trainable_vars": ["a"], "bnd_dic": {}, "pre_trans": {}, "mask_vars": {}, "complex_vars": {}, "same_list": []})
+        vm = SelfObj(vmc, {"variables": {"a": cell("a", A0), "b": cell("b", B0)}, "trainable_vars": ["a"], "bnd_dic": {}, "pre_trans": {}, "mask_vars": ({"a": A0} if masked else {}), "complex_vars": {}, "same_list": []})
         amp = SelfObj(cls, {"vm": vm})
         body = "raise RuntimeError('x')" if leave != "normally" else "marker = 1"
         stmt = ast.parse("with amp.temp_params(override):\n    %s" % body).body[0]
-        tr = Translator(repo, hooks={"enter_contextmanagers": True, "allow_attr_store": True, "allow_raise": True, "builtin.type": None}, max_depth=4)
+        tr = Translator(repo, hooks={"enter_contextmanagers": True, "allow_attr_store": True, "allow_raise": True, "builtin.type": None}, where_policy=generic, max_depth=6)
         env = {"amp": amp, "override": {"a": A1, "b": B1}}
         try:
             tr.exec_stmt(stmt, env, cls.mod, 0)
         except Raised:
             pass
         except Unmodelled as e:
-            raise AnalysisError("AbsPDF.temp_params cannot be interpreted (%s): %s" % (leave, e))
+            raise AnalysisError("AbsPDF.temp_params cannot be interpreted (%s%s): %s" % (leave, ", inside a mask" if masked else "", e))
         got = {k: b["v"] for k, b in cells.items()}
         ok = got == {"a": A0, "b": B0}
+        if masked:
+            leave = leave + ", entered inside mask_params({a: <its current value>})"
         chk.oblige("R-cover", "temp_params({a, b}) left %s: variables back at %s" % (leave, got), ok)
         if not ok:
-            chk.violation("R-cover", cls.methods["temp_params"].key, "uncovered:%s" % leave.split()[-1], "after `with amp.temp_params({a: A1, b: B1})` left %s the variables hold %s, they held {a: A0, b: B0}: the fixed variable b is not put back (the snapshot does not cover it), so every later density / fit fraction is computed with the temporary value" % (leave, got), file=AMP, line=cls.methods["temp_params"].lineno)
+            chk.violation("R-cover", cls.methods["temp_params"].key, "uncovered:%s%s" % (leave.split(",")[0].split()[-1], ":masked" if masked else ""), "after `with amp.temp_params({a: A1, b: B1})` left %s the variables hold %s, they held {a: A0, b: B0}: a variable the block changed is not put back (the snapshot / the write-back does not cover it), so every later density / fit fraction is computed with the temporary value" % (leave, got), file=AMP, line=cls.methods["temp_params"].lineno)
